@@ -862,22 +862,22 @@ def split_top_level_and(cond):
 
 
 def unchain_let(w):
-    """R17: `if A && let P = E { B }` (no else) -> `if A { if let P = E { B } }` -- Verus does not support let chains.
-    Handles rustfmt's one-line and one-condition-per-line layouts."""
+    """R17: `if A && let P = E { B }` -> `if A { if let P = E { B } }`, and with an else branch (also as the right-hand
+    side of a `let`):  `[let X = ]if A && let P = E { B } else { C }[;]` -> `[let X = ]if A { if let P = E { B } else { C } } else { C }[;]`
+    -- Verus does not support let chains.  Handles rustfmt's one-line and one-condition-per-line layouts."""
     i = 0
     while i < len(w.lines):
         l = w.lines[i]
-        m = re.match(r"^(\s*)if (.*)$", l)
+        m = re.match(r"^(\s*)((?:let (?:mut )?\w+ = )?)if (.*)$", l)
         if not m:
             i += 1
             continue
-        ind = m.group(1)
+        ind, prefix = m.group(1), m.group(2)
         if l.rstrip().endswith("{"):
-            conds = split_top_level_and(m.group(2)[:-1].rstrip())
+            conds = split_top_level_and(m.group(3)[:-1].rstrip())
             open_line = i
         else:
-            # multi-line header: continuation lines start with `&& `, then a line that is just `{`
-            conds = [m.group(2).strip()]
+            conds = [m.group(3).strip()]
             j = i + 1
             while j < len(w.lines) and re.match(r"^\s+&& ", w.lines[j]):
                 conds.append(w.lines[j].strip()[3:].strip())
@@ -889,17 +889,31 @@ def unchain_let(w):
         if len(conds) < 2 or not any(c.startswith("let ") for c in conds[1:]):
             i += 1
             continue
-        # closing brace of the block: first later line that is exactly ind + "}"
-        close = None
-        for k in range(open_line + 1, len(w.lines)):
-            if w.lines[k].startswith(ind + "}"):
-                close = k
-                break
-        if close is None or w.lines[close] != ind + "}":
-            raise LostAnchor(f"{w._where(i)}: let chain with an else branch (or unexpected layout) cannot be un-chained")
+        close = next((k for k in range(open_line + 1, len(w.lines)) if w.lines[k].startswith(ind + "}")), None)
+        if close is None:
+            raise LostAnchor(f"{w._where(i)}: let chain: end of the block not found")
         body = w.lines[open_line + 1 : close]
-        new = [ind + "if " + conds[0] + " {"] + [ind + "if " + c + " {" for c in conds[1:]] + body + [ind + "}"] * len(conds)
-        w.rewrite_lines("R17-let-chain", i, close, new, note="let chain without else -> nested ifs (same evaluation order and short-circuiting)")
+        tail = w.lines[close][len(ind) + 1 :]            # what follows the closing brace: "", ";", " else {"
+        if tail in ("", ";"):
+            new = [ind + prefix + "if " + conds[0] + " {"] + [ind + "if " + c + " {" for c in conds[1:]] + body + [ind + "}"] * (len(conds) - 1) + [ind + "}" + tail]
+            last = close
+        elif tail == " else {":
+            eclose = next((k for k in range(close + 1, len(w.lines)) if w.lines[k].startswith(ind + "}")), None)
+            if eclose is None or w.lines[eclose][len(ind) + 1 :] not in ("", ";"):
+                raise LostAnchor(f"{w._where(i)}: let chain: `else if` chains are not un-chained")
+            ebody = w.lines[close + 1 : eclose]
+            etail = w.lines[eclose][len(ind) + 1 :]
+            new = [ind + prefix + "if " + conds[0] + " {"]
+            for c in conds[1:]:
+                new.append(ind + "if " + c + " {")
+            new += body
+            for _ in conds[1:]:
+                new += [ind + "} else {"] + ebody + [ind + "}"]
+            new += [ind + "} else {"] + ebody + [ind + "}" + etail]
+            last = eclose
+        else:
+            raise LostAnchor(f"{w._where(close)}: let chain: unexpected text after the block")
+        w.rewrite_lines("R17-let-chain", i, last, new, note="let chain -> nested ifs (same evaluation order and short-circuiting; a pure else branch is repeated)")
         i += 1
     return
 
@@ -1510,6 +1524,19 @@ def build_pipeline(repo, external=(), canary=None, with_witness=True, boost=Fals
     # C07 says nothing about resolve_variables: there it is a stub without a contract (its preconditions are C08's business)
     rv.contract(sc6["resolve_variables.contract"] if flavor == "C08" else "    // (no contract in the C07 flavour of this unit)\n", ret="r")
     b.add_fn(rv, external=True)
+    if flavor == "C08":
+        # ASSUMPTION GUARD: the stub of check_definitions says "only ever pushes errors".  That is accepted only while it
+        # is syntactically evident: in check_definitions / check_definition the parameter `errors` occurs only in the
+        # signature, as `errors.push(`, and as an argument of a call to one of the two functions.
+        for fname in ("check_definitions", "check_definition"):
+            cdw = Woven(parser_rs, "fn", fname, log)
+            for n, l in enumerate(cdw.lines):
+                code = l.split("//")[0]
+                for mm in re.finditer(r"\berrors\b", code):
+                    before, after = code[: mm.start()], code[mm.end() :]
+                    ok = after.startswith(": &mut Vec<Error>") or after.startswith(".push(") or (after[:1] in (",", ")") and not before.rstrip().endswith(("=", "*")))
+                    if not ok:
+                        raise LostAnchor(f"{cdw._where(n)}: the assumption 'check_definitions only pushes errors' is no longer syntactically evident: `{l.strip()}`")
     pa = Woven(parser_rs, "fn", "parse", log)
     weave_parse_full(pa, sc, flavor)
     b.add_fn(pa, external="parse" in external)
